@@ -30,7 +30,12 @@ func main() {
 	prop := flag.String("prop", "", "property id (C01..C20)")
 	tier := flag.String("tier", "quick", "quick|thorough")
 	list := flag.Bool("list", false, "list implemented properties")
+	debug := flag.String("debug", "", "debug query, e.g. reach:<pkgpath>:<func> or reach:<pkgpath>:<Type>.<method>")
 	flag.Parse()
+	if *debug != "" {
+		props.Debug(*debug)
+		return
+	}
 	if *list {
 		ids := []string{}
 		for id := range checks {
